@@ -11,6 +11,15 @@ import TucanProofs.Lemmas.StarExample
 About the V3000 reader model.  The full reader (`graphAttributesV3000`, `graphFromMolfileText`) is tied to
 the code by the correspondence on spec-derived renderings; the theorems cover the line machinery every
 spelling goes through.
+
+What "every spelling" quantifies over in the theorems below, and what it leaves to the correspondence: blank runs
+of any length and wraps at any position, properties in any order with other keywords in between, repeated keys,
+explicit defaults, any indices.  Narrower than the format: integers are spelled as Python's `str` spells them (no
+`CHG=+1`, no `01`), blanks are U+0020, the tokens before `ENDPTS=(` contain no `)` (no other parenthesised keyword
+in front of it), coordinates are opaque tokens that `float()` accepts (their numeric value is not modelled), and an
+index token is "a token `int()` reads as the index" (through the model's `pyInt`).  Those other spellings — Unicode
+blanks and digits, signs, leading zeros — are compared with the interpreter on every run (`INT`, `FLOATOK`,
+`SPLITWS`, `CHARCLASS` operations and the exotic-mutation stream of the C07/C08 workloads), not proved.
 -/
 namespace Tucan
 
